@@ -126,19 +126,34 @@ def run(ctx):
         return ctx.go_test("tsdb", TSDB_FILES, "^%s$" % kw.get("test", "TestVerifBackupReplay"), env={"VERIF_IN": p},
                            timeout=1500, label=label, extra_pkgs=KIT)
 
-    def confirm_store(rp):
-        if rp.get("test") == "race":
-            recs, out, rc = store_replay([], "confirm-race", test="TestVerifBackupRace", indexes=[rp["index"]])
-            return True     # schedule dependent: reported as found (the oracle is a prefix set, it cannot misfire)
-        recs, out, rc = store_replay([rp["behaviour"]], "confirm", indexes=[rp["index"]])
-        return any(r.get("k") == "mismatch" and not r["sig"].startswith("note:") for r in recs)
+    def batch_confirm(recs, runner):
+        """Re-run every scenario that produced an unknown mismatch, all in one go test run; return the signatures that
+        reproduced.  (One confirmation run per signature would cost a build + start each.)"""
+        todo, seen = [], set()
+        for r in recs:
+            if r.get("k") == "mismatch" and not r["sig"].startswith("note:") and ctx.match_known(r["sig"]) is None \
+                    and r["sig"] not in seen and (r.get("replay") or {}).get("behaviour"):
+                seen.add(r["sig"])
+                todo.append(r["replay"]["behaviour"])
+        if not todo:
+            return set()
+        recs2, out2, rc2 = runner(todo)
+        return {r["sig"] for r in recs2 if r.get("k") == "mismatch"}
+
+    def net_replay(behs, label, rst=False, index="inmem"):
+        p = ctx.write_json("net-%s.json" % label, {"behaviours": behs, "index": index, "max_sigs": 2, "rst": rst})
+        return ctx.go_test("services/meta", META_FILES, "^TestVerifCopyShardNet$", env={"VERIF_IN": p}, timeout=1500,
+                           label=label, extra_pkgs=KIT)
 
     if ctx.replay:
         rp = json.load(open(ctx.replay))["replay"]
-        if rp.get("test") == "store":
+        if rp.get("test") == "net":
+            recs, out, rc = net_replay([rp["behaviour"]], "replay-net", rst=rp.get("rst", False), index=rp.get("index", "inmem"))
+            ctx.process(recs, out, rc, "TestVerifCopyShardNet", None)
+        elif rp.get("test") == "store":
             recs, out, rc = store_replay([rp["behaviour"]], "replay", indexes=[rp["index"]])
             ctx.process(recs, out, rc, "TestVerifBackupReplay", None)
-        elif rp.get("test") == "race":
+        if rp.get("test") == "race":
             recs, out, rc = store_replay([], "replay-race", test="TestVerifBackupRace", indexes=[rp["index"]])
             ctx.process(recs, out, rc, "TestVerifBackupRace", None)
         return ctx.finish("model_checking", {})
@@ -149,14 +164,15 @@ def run(ctx):
     per = ctx.pick(2, 12)
     store, stats = [], {}
     n = ctx.pick(400, 2500)
-    for mp in ctx.pick((2, 5), (1, 2, 3, 4, 5, 6)):
-        b = generate(ctx, sd, "store", n, MaxPrep=mp, Cuts=[], Missing=False)
-        store += b
+    # quick: one run whose preparation phase has 5 (6) or 2 (3) steps; thorough: every length 1..6
+    for mp in ctx.pick((5 + ctx.seed % 2,), (1, 2, 3, 4, 5, 6)):
+        store += generate(ctx, sd, "store", n, MaxPrep=mp, Cuts=[], Missing=False, GenReqAt=ctx.pick([0, 3], [0]))
     for mp in ctx.pick((3,), (2, 4)):
         store += generate(ctx, sd, "store", n, MaxPrep=mp, MaxBackups=2, Cuts=[], Missing=False, Modes=['"restore"'], MaxRace=1)
     copy = []
-    for mp in ctx.pick((3, 5), (1, 2, 3, 4, 5, 6)):
-        copy += generate(ctx, sd, "copy", n, MaxPrep=mp, MaxRace=0)
+    for mp in ctx.pick((4 + ctx.seed % 2,), (1, 2, 3, 4, 5, 6)):
+        copy += generate(ctx, sd, "copy", n, MaxPrep=mp, MaxRace=0, Missing=False, GenReqAt=ctx.pick([0, 2], [0]))
+    copy += generate(ctx, sd, "copy", 20, MaxPrep=1, MaxRace=0, Missing=True)
     sel_store, st1 = select(store, per, rnd, ctx.pick(90, 1500))
     sel_copy, st2 = select(copy, per, rnd, ctx.pick(90, 1500))
     log("scenarios: store %d generated / %d replayed, copy %d generated / %d replayed" % (len(store), len(sel_store), len(copy), len(sel_copy)))
@@ -169,11 +185,30 @@ def run(ctx):
         raise Infra("generated scenarios miss faults: have %s" % sorted(havecut))
 
     recs, out, rc = store_replay(sel_store + sel_copy, "replay")
-    done = ctx.process(recs, out, rc, "TestVerifBackupReplay", confirm_store)
+    ok = batch_confirm(recs, lambda behs: store_replay(behs, "confirm"))
+    done = ctx.process(recs, out, rc, "TestVerifBackupReplay", lambda rp: rp.get("sig") in ok)
     ctx.cov["traces_validated_against_impl"] += done.get("behaviours", 0)
     recs, out, rc = store_replay([], "race", test="TestVerifBackupRace")
-    done_r = ctx.process(recs, out, rc, "TestVerifBackupRace", confirm_store)
-    extra = {"store_level": {k: done.get(k) for k in ("behaviours", "steps", "backups", "restores", "restores_ok", "restores_failed",
+    # schedule dependent; the oracle is a set of prefixes and cannot misfire, so a mismatch is reported as found
+    done_r = ctx.process(recs, out, rc, "TestVerifBackupRace", lambda rp: True)
+    # the same copy scenarios end to end: meta handler -> rpc client -> coordinator services -> stores, connection cut
+    # by a net.Conn wrapper on the source node (clean close; thorough: also with a reset, and on tsi1)
+    net = [b for b in sel_copy if classify(b)[2] == "restore"]
+    recs, out, rc = net_replay(net, "net")
+    ok = batch_confirm(recs, lambda behs: net_replay(behs, "confirm-net"))
+    done_n = ctx.process(recs, out, rc, "TestVerifCopyShardNet", lambda rp: rp.get("sig") in ok)
+    ctx.cov["traces_validated_against_impl"] += done_n.get("completed", 0)
+    if done_n and done_n.get("cuts_done", 0) == 0:
+        raise Infra("network replay: no connection was cut")
+    if not ctx.quick():
+        recs, out, rc = net_replay(net, "net-rst", rst=True, index="tsi1")
+        ok = batch_confirm(recs, lambda behs: net_replay(behs, "confirm-net-rst", rst=True, index="tsi1"))
+        done_n2 = ctx.process(recs, out, rc, "TestVerifCopyShardNet", lambda rp: rp.get("sig") in ok)
+        ctx.cov["traces_validated_against_impl"] += done_n2.get("completed", 0)
+    extra_net = {k: done_n.get(k) for k in ("behaviours", "completed", "copies", "http_ok", "http_failed", "advertised", "held", "cuts_done",
+                                            "classes", "cuts", "source_tmp_leftovers", "signatures")}
+    extra = {"network_level": extra_net,
+             "store_level": {k: done.get(k) for k in ("behaviours", "steps", "backups", "restores", "restores_ok", "restores_failed",
                                                       "judged", "not_judged", "held", "race_writes", "cuts", "reopens", "classes", "signatures")},
              "race_rounds": done_r.get("rounds", 0), "race_distinct_prefixes": done_r.get("distinct_prefixes", 0),
              "generated": {"store": len(store), "copy": len(copy)}}
